@@ -1,6 +1,7 @@
 package handler
 
 import (
+	"context"
 	"encoding/json"
 	"io"
 	"net/http"
@@ -18,6 +19,10 @@ import (
 
 func Setup_C07_serverHistory() { Setup_C09_http() }
 
+// c07ReqID: requests with ext 5 carry an X-Request-Id header, which a response interceptor of the server echoes into the
+// response's extensions (a common customisation): no other response may show it
+const c07ReqID = "secret-of-client-A"
+
 type c07Req struct {
 	transport int // 0 GET, 1 POST json, 2 POST application/graphql, 3 POST form
 	doc       int // index into hDocs
@@ -28,13 +33,15 @@ type c07Req struct {
 // a corpus mixing transports, valid and invalid documents, operation names and Accept headers
 var c07Corpus = []c07Req{
 	{0, 0, 0, 0}, {0, 1, 2, 0}, {0, 5, 1, 0}, {0, 7, 3, 0}, {1, 0, 1, 0}, {1, 2, 2, 0}, {1, 4, 0, 0}, {1, 8, 4, 0},
-	{1, 1, 6, 0}, {2, 0, 2, 0}, {2, 7, 1, 0}, {3, 0, 5, 0}, {3, 28, 0, 0}, {1, 9, 1, 0}, {0, 10, 2, 0},
+	{1, 1, 6, 0}, {2, 0, 2, 0}, {2, 7, 1, 0}, {3, 0, 5, 0}, {3, 29, 0, 0}, {1, 9, 1, 0}, {0, 10, 2, 0},
 	// automatic persisted queries: a registration, and a text sent with another text's hash (must be refused, registered or not)
 	{1, 0, 1, 1}, {1, 5, 1, 2}, {1, 2, 0, 2},
 	// texts that differ only inside a string literal / in where a comment ends (they must not share a cache slot)
 	{1, 11, 0, 0}, {1, 12, 0, 0}, {0, 12, 1, 0}, {1, 13, 0, 0}, {2, 14, 0, 0},
 	// POST bodies without a query member
 	{1, 1, 0, 3}, {1, 0, 1, 4},
+	// a request whose id the server's response interceptor echoes into the extensions
+	{1, 0, 1, 5}, {1, 7, 0, 5},
 	// texts that collide under common 32-bit checksums
 	{1, 15, 0, 0}, {1, 16, 0, 0}, {1, 17, 0, 0}, {0, 18, 0, 0}, {1, 19, 0, 0}, {1, 20, 0, 0}, {2, 21, 0, 0}, {1, 22, 0, 0}, {1, 23, 0, 0}, {3, 24, 0, 0},
 }
@@ -70,6 +77,8 @@ func c07Build(q c07Req) *http.Request {
 			body = `{"operationName":` + string(o) + `}`
 		case 4:
 			body = `{"variables":{"a":1}}`
+		case 5:
+			r.Header.Set("X-Request-Id", c07ReqID)
 		}
 		r.Body = io.NopCloser(strings.NewReader(body))
 	case 2:
@@ -111,6 +120,19 @@ func Harness_C07_serverHistory() {
 			}
 		}
 		srv := hServer(es, hdr)
+		srv.AroundResponses(func(ctx context.Context, next graphql.ResponseHandler) *graphql.Response {
+			resp := next(ctx)
+			if resp == nil || !graphql.HasOperationContext(ctx) {
+				return resp
+			}
+			if id := graphql.GetOperationContext(ctx).Headers.Get("X-Request-Id"); id != "" {
+				if resp.Extensions == nil {
+					resp.Extensions = map[string]any{}
+				}
+				resp.Extensions["requestId"] = id
+			}
+			return resp
+		})
 		switch cache {
 		case 1:
 			srv.SetQueryCache(graphql.MapCache[*ast.QueryDocument]{})
@@ -124,6 +146,12 @@ func Harness_C07_serverHistory() {
 	}
 	first := c07Corpus[zzsym.Choice("first", len(c07Corpus))]
 	second := c07Corpus[zzsym.Choice("second", len(c07Corpus))]
+	// what a freshly constructed server answers for the second request alone - taken first, so that state the history
+	// leaves anywhere in the process (not only in its own server) shows as a difference
+	esFresh := &hES{}
+	wFresh := newHWriter()
+	mkServer(esFresh).ServeHTTP(wFresh, c07Build(second))
+
 	es := &hES{}
 	srv := mkServer(es)
 	srv.ServeHTTP(newHWriter(), c07Build(first))
@@ -131,9 +159,6 @@ func Harness_C07_serverHistory() {
 	w := newHWriter()
 	srv.ServeHTTP(w, c07Build(second))
 
-	esFresh := &hES{}
-	wFresh := newHWriter()
-	mkServer(esFresh).ServeHTTP(wFresh, c07Build(second))
 	zzsym.Assert(w.status == wFresh.status, "the status is the one a fresh server answers")
 	zzsym.Assert(c07Render(w, es) == c07Render(wFresh, esFresh), "headers, executed operation and body are those a fresh server answers")
 	zzsym.Reach("c07.server.history")
